@@ -14,6 +14,8 @@ From AV Require Import Multipart.Roundtrip.
 From AV Require Import Multipart.Stream2.
 From AV Require Import Multipart.Roundtrip2.
 From AV Require Import Multipart.Preamble.
+From AV Require Import Gen.MultipartTables.
+From AV Require Import Multipart.GenTie.
 
 (* The parse buffer never exceeds buffer_limit: for every header oracle, every code variant,
    every upstream script, every limit and every sequence of polls by the consumer
@@ -276,3 +278,92 @@ Example C15_full_example :
                                     (firstn 12 (pre ex_pre ++ ex_body))) 8) AtMp)
   = [TErr EIncomplete].
 Proof. exact full_example. Qed.
+
+(* ==================== translator tie: the model IS the interpretation of the source literals =====
+   Gen/MultipartTables.v is regenerated from actix-multipart/src/{field,multipart,payload}.rs on
+   every check run (tools/gen/multipart.py: anchored patterns; a pattern that no longer matches
+   omits its definition). The statements below mention only generated names on one side and
+   the model on the other; they are closed by conversion, so a changed literal, slice bound or
+   comparison operator in the Rust source breaks them. *)
+
+(* field.rs read_stream: the start-of-buffer test (guard `len >= 4` — the F24 line —, byte
+   b'\r', starts_with(b"\r\n"), [2..4] == b"--" -> 4, [1..3] == b"--" -> 3, `len < b_size`
+   wait test with its eof exit, [b_len..b_size] == boundary), the look-alike test of the scan
+   loop, the look-ahead `cur + 4 > len`, and the memmem needle *)
+Theorem C15_scan_matches_generated :
+  (forall buf bnd eof, start_check false false buf bnd eof = start_check_g buf bnd eof) /\
+  (forall l, lookalike l = lookalike_g l) /\
+  (forall pre l : bytes, (length l <? 4)%nat = MP_LOOKAHEAD_SHORT (length pre) (length (pre ++ l))) /\
+  (forall x : N, (x =? CR) = bytes_eqb [x] MP_SCAN_NEEDLE).
+Proof.
+  exact (conj start_check_matches_generated (conj lookalike_matches_generated
+        (conj lookahead_matches_generated scan_needle_matches_generated))).
+Qed.
+
+(* field.rs: the look-ahead exit answers Err(Incomplete) at eof exactly when the source has
+   the `else if payload.eof` arm (F7) *)
+Theorem C15_eof_exits_match_generated : forall p bnd,
+  (length (p_buf p) =? 0)%nat = false ->
+  start_check false false (p_buf p) bnd (p_eof p) = None -> scan_from 0 (p_buf p) = SStuck ->
+  read_stream p bnd = ((if MP_EOF_EXIT_STUCK && p_eof p then Ready (IErr EIncomplete) else Pending), p).
+Proof. exact eof_exits_match_generated. Qed.
+
+(* multipart.rs: the boundary-line forms of read_boundary (BOUNDARY_MARKER + boundary +
+   LINE_BREAK | BOUNDARY_MARKER | b"--\r\n"), the header terminator b"\r\n\r\n", the line tests
+   of skip_until_boundary; payload.rs: the readline needle b"\n" *)
+Theorem C15_boundary_forms_match_generated :
+  (forall p bnd, read_boundary p bnd = read_boundary_g p bnd) /\
+  (forall (hdr : bytes -> hres) p,
+     read_field_headers hdr p =
+     match read_until MP_HEADER_TERMINATOR p with
+     | Err e => Err e
+     | Ok (None, p1) => if p_eof p1 then Err EIncomplete else Ok (None, p1)
+     | Ok (Some block, p1) => Ok (Some (hdr block), p1)
+     end) /\
+  (forall p, readline p = read_until MP_READLINE_NEEDLE p) /\
+  (forall k p bnd,
+     skip_loop (S k) p bnd =
+     match readline p with
+     | Err e => Err e
+     | Ok (None, p1) => if p_eof p1 then Err EIncomplete else Ok (None, p1)
+     | Ok (Some chunk, p1) =>
+         if is_nil chunk then Err EBoundary
+         else
+           match strip_suffix MP_SKIP_EOL chunk with
+           | None => skip_loop k p1 bnd
+           | Some line =>
+               match strip_prefix MP_SKIP_PREFIX line with
+               | Some l2 =>
+                   if bytes_eqb l2 bnd then Ok (Some false, p1)
+                   else if opt_bytes_eqb (strip_suffix MP_SKIP_FINAL_SUFFIX l2) bnd then Ok (Some true, p1)
+                   else skip_loop k p1 bnd
+               | None => skip_loop k p1 bnd
+               end
+           end
+     end).
+Proof.
+  exact (conj read_boundary_matches_generated (conj header_terminator_matches_generated
+        (conj readline_needle_matches_generated skip_loop_matches_generated))).
+Qed.
+
+(* payload.rs poll_stream: each of the three "stream still ready" exits wakes the task
+   unconditionally exactly when the source has a bare `cx.waker().wake_by_ref()` there (F25),
+   the buffer-full test is `buf.len() >= buffer_limit`, the end of the stream sets eof without
+   a wake-up *)
+Theorem C15_wakeups_match_generated :
+  (forall p a, poll_loop false 0 p a = Ok (p, wake_flag MP_WAKE_AFTER_LOOP a)) /\
+  (forall n p a d p1 a1,
+     p_pending p = Some d -> append_pending p = Ok (p1, a1) ->
+     is_some (p_pending p1) || MP_FULL_TEST (lenN (p_buf p1)) (p_limit p1) = true ->
+     poll_loop false (S n) p a = Ok (p1, wake_flag MP_WAKE_EARLY_PENDING (a || a1))) /\
+  (forall n p a data rest p1 a1,
+     p_pending p = None -> p_stream p = EChunk data :: rest ->
+     append_pending (set_pending (set_stream p rest) (Some data)) = Ok (p1, a1) ->
+     is_some (p_pending p1) || MP_FULL_TEST (lenN (p_buf p1)) (p_limit p1) = true ->
+     poll_loop false (S n) p a = Ok (p1, wake_flag MP_WAKE_EARLY_CHUNK (a || a1))) /\
+  (forall n p a, p_pending p = None -> p_stream p = [] ->
+     poll_loop false (S n) p a = Ok (set_eof p true, negb MP_EOF_NO_WAKE)).
+Proof.
+  exact (conj wake_after_loop_matches_generated (conj wake_early_pending_matches_generated
+        (conj wake_early_chunk_matches_generated eof_exit_matches_generated))).
+Qed.
